@@ -560,7 +560,7 @@ def _carried(ctx):
             # o should be the collect call
             src, chain = adaptor_chain(t, op) if o['o'] != 'call' else adaptor_chain(t, {'k': 'copy', 'l': o['l'], 'p': []})
             names = [c[0] for c in chain]
-            allowed = all(n in ('collect', 'map', 'iter', 'into_iter', 'deref', 'cloned', 'copied') for n in names)
+            allowed = all(n in ('collect', 'map', 'iter', 'into_iter', 'deref', 'cloned', 'copied', 'enumerate') for n in names)
             srcok = src['o'] == 'arg' and field_path(src['p']) == ['wyckoff_str']
             chain_ok = allowed and srcok and 'map' in names and 'collect' in names
             if not chain_ok:
@@ -597,7 +597,8 @@ def _carried(ctx):
                             # the item may pass through borrowing adaptors (`op.as_ref()`), the result through a spliced
                             # `FromStr::from_str` / `str::parse`
                             a, _st = through(tc, calls[0][1]['args'][0], extra=[(('AsRef>::as_ref', 'AsRef::as_ref', 'Borrow::borrow', 'Deref::deref'), 0)])
-                            ro = tc.origin({'k': 'copy', 'l': 0, 'p': []})
+                            # (the result may be decorated with error context: a payload-preserving wrapper)
+                            ro, _rst = through(tc, {'k': 'copy', 'l': 0, 'p': []})
                             okc = a['o'] == 'arg' and a['l'] == 2 and ro['o'] == 'call' and ro.get('bb') == calls[0][0] and not ro['p']
                     rep.check(okc, 'R5', 'each-string-parsed-by-from_operations', where(ws, bi),
                               'closure = |s| Transform2::from_operations(s)', 'the mapping closure does not parse its own item')
